@@ -45,6 +45,7 @@ pub use crate::transform::{
     VerifDiagAdaptStrategy as DiagAdaptStrategy, VerifDiagMassMatrix as DiagMassMatrix,
     VerifLowRankMassMatrix as LowRankMassMatrix, VerifMassMatrixAdaptStrategy as MassMatrixAdaptStrategy,
 };
+pub use crate::transform::LowRankMassMatrixStrategy;
 pub use crate::stepsize::{VerifAcceptanceRateCollector as AcceptanceRateCollector, VerifStrategy as StepSizeStrategy};
 
 /// Schedule points of the parallel sampler: an event log and seeded schedule perturbation.
